@@ -628,6 +628,15 @@ def r_registry_who(ctx: Ctx, rule="R03.1"):
             ok = hosts <= allowed and ctx.in_pool(e.node.func)
             if kind == "assign" and not ok and hosts <= {"flush", "gather_and_close"} and fld != "_tasks_running" or (kind == "assign" and hosts <= {"gather_and_close"}):
                 ok = True  # rebuilding idiom; judged by SNAPSHOT-FORGET
+            if not ok and ctx.in_pool(e.node.func) and kind in ("insert", "remove"):
+                # an additional writer is acceptable if all it does are legal, atomic registry moves
+                lm = legal_moves(ctx, e.node.func)
+                if lm is True:
+                    rep.ob(rule, f"{kind} on {fld} by an additional writer that performs only legal atomic moves (running->cancelled->ended, running->ended)", True, node=e.node,
+                           detail=f"{e.kind} {e.path} on behalf of {sorted(hosts)}")
+                    continue
+                if lm is None:
+                    ok = None
             rep.ob(rule, f"{kind} on {fld} only by {sorted(allowed)}", ok, node=e.node, detail=f"{e.kind} {e.path} on behalf of {sorted(hosts)}")
             if kind == "insert":
                 counts["insert" if fld == "_tasks_running" else "move"] += 1
@@ -649,6 +658,83 @@ def r_registry_who(ctx: Ctx, rule="R03.1"):
                     keys.append(val.args[0])
                 same = len({ast.unparse(k) for k in keys}) == 1 and all(isinstance(k, ast.Name) and k.id in f.param_names() for k in keys)
                 rep.ob(rule, "a registry move files the same id it removed (the function's task id)", same if keys else None, node=n)
+
+
+def legal_moves(ctx: Ctx, f: FuncInfo) -> Optional[bool]:
+    """Does this function, for an id filed anywhere, only perform legal registry moves (R->C, R->E, C->E), each in one atomic segment,
+    and never leave the id in no registry?  True / False / None (not understood)."""
+    regs = {"_tasks_running": "R", "_tasks_cancelled": "C", "_tasks_ended": "E"}
+    legal = {("R", "C"), ("R", "E"), ("C", "E")}
+    P = ctx.eff.paths(f)
+    verdict = [True]
+    keys: Set[str] = set()
+
+    def reg(e) -> Optional[str]:
+        p = P.of(e)
+        if p is None or "[" in p or p.count(".") != 1:
+            return None
+        return regs.get(field_of(p))
+
+    def transfer(ai: AbsInt, n: Node, lab: Label, st):
+        loc, src = st  # src: registry the id was taken from while in limbo
+        a = n.ast
+        normal = lab[0] in NORMAL_KINDS
+        if n.op == "call" and isinstance(a, ast.Call) and isinstance(a.func, ast.Attribute) and a.func.attr == "pop" and a.args:
+            r = reg(a.func.value)
+            if r is not None:
+                keys.add(ast.unparse(a.args[0]))
+                if lab == ("x", (KEYERROR, True)):
+                    return [] if loc == r else [st]
+                if normal:
+                    if loc == r:
+                        return [("-", r)]
+                    return [st] if len(a.args) > 1 else []
+        if n.op == "call" and isinstance(a, ast.Call) and isinstance(a.func, ast.Attribute) and a.func.attr in ("clear", "popitem", "update") and reg(a.func.value) is not None and normal:
+            verdict[0] = False
+        if n.op == "del" and normal:
+            for t in a.targets:
+                if isinstance(t, ast.Subscript) and reg(t.value) is not None:
+                    keys.add(ast.unparse(t.slice))
+                    if loc == reg(t.value):
+                        return [("-", loc)]
+        if n.op == "assign" and normal:
+            for t in (a.targets if isinstance(a, ast.Assign) else [a.target]):
+                if isinstance(t, ast.Subscript) and reg(t.value) is not None:
+                    r = reg(t.value)
+                    keys.add(ast.unparse(t.slice))
+                    if loc == "-":
+                        if (src, r) not in legal:
+                            verdict[0] = False
+                        return [(r, None)]
+                    if loc != r:
+                        verdict[0] = False  # filed twice
+                    return [st]
+                if isinstance(t, ast.Attribute) and reg(t) is not None:
+                    verdict[0] = False  # rebinding a registry
+        if (ctx.effective(n) or n.user) and loc == "-":
+            verdict[0] = False
+        return [st]
+
+    per_init: Dict[str, bool] = {}
+    for init in ("R", "C", "E"):
+        verdict[0] = True
+        ai = AbsInt(ctx.an, transfer)
+        exits = ai.run(f, (init, None))
+        for k, sts in exits.items():
+            for loc, src in sts:
+                if loc == "-":
+                    verdict[0] = False
+        per_init[init] = verdict[0]
+    if len(keys) > 1:
+        return None
+    if all(per_init.values()):
+        return True
+    # which registries does the function take ids from?  If the moves are legal for ids that really are filed there, the
+    # function may rely on a guard the analysis cannot see (e.g. task.cancelled()): not understood, not a violation
+    sources = {regs[field_of(e.path)] for e in ctx.eff.of_func(f) if e.kind == "remove" and field_of(e.path) in regs and e.path.count(".") == 1}
+    if sources and all(per_init[s] for s in sources):
+        return None
+    return False
 
 
 # ---------------------------------------------------------------------- R03.4
